@@ -22,7 +22,7 @@ PROP = {
         # reset hooks are ignored: they run while goroutines of the stopped pipeline wind down): the discard policy, the feedback channels and the per-item bookkeeping are
         # shared between the fetch goroutines of a seed and the WARC recorder's goroutines (a data race report is a violation)
         {"name": "c02race", "pkg": "./internal/pkg/verifnet", "run": "^TestVerif_C02_Finish$", "kind": "rapid", "toolchain": "go124",
-         "facets": ["C02/finish"], "race": (True, True), "race_ignore": r"\.Verif[A-Z]\w*\(|/verifnet\.|/veriflib\.", "checks": (1, 1), "shards": (6, 16), "shrinktime": (5, 30), "timeout": (900, 2400), "verbose": True},
+         "facets": ["C02/finish"], "race": (True, True), "race_ignore": r"\.Verif[A-Z]\w*\(|/verifnet\.|/veriflib\.", "env": {"VERIF_N_C02_ONE_LIFECYCLE": (1, 1)}, "checks": (1, 1), "shards": (6, 16), "shrinktime": (5, 30), "timeout": (900, 2400), "verbose": True},
         {"name": "c02kf1", "pkg": "./internal/pkg/verifnet", "run": "^TestVerifKF_C02_FailedResponseNotAwaited$", "kind": "kf", "toolchain": "go124",
          "finding": "C02-failed-response-not-awaited", "facets": [], "checks": (1, 1), "shards": (1, 1), "verbose": True},
     ],
